@@ -430,6 +430,10 @@ func (r *Reader) seek(rec record) (*tableIter, error) {
 	if err != nil {
 		return nil, err
 	}
+	if tabIter == nil {
+		// The footer points at a block of another type.
+		return nil, fmtError
+	}
 
 	ok, err := r.seekLinear(tabIter, rec)
 	if ok {
@@ -443,6 +447,10 @@ func (r *Reader) seekIndexed(want record) (*tableIter, error) {
 	idxIter, err := r.start(want.typ(), true)
 	if err != nil {
 		return nil, err
+	}
+	if idxIter == nil {
+		// The footer's index offset does not hold an index block.
+		return nil, fmtError
 	}
 
 	wantIdx := &indexRecord{
